@@ -223,6 +223,7 @@ def errName : Err → String
   | .panicKeyspace => "keyspace"
   | .namedBatch => "namedbatch"
   | .frameTooBig => "toobig"
+  | .tooMany => "toomany"
 
 /-- unsigned lexicographic order on byte strings -/
 def bytesLe : Bytes → Bytes → Bool
